@@ -144,10 +144,11 @@ Theorem check_run_f : forall v, Forall valid_cp (v_str (v_nth 5 v)) -> check_C02
 Proof. exact check_run_f_l. Qed.
 Print Assumptions check_run_f.
 
-(** ... and a [true] on an implementation output for an explicit file that loads as [tbl] means: the ids are
-    vocabulary ids of the tokenizer with table [tbl] and the decoded bytes are the UTF-8 of the stripped text. *)
+(** ... and a [true] on an implementation output other than the constructor error, for an explicit file that loads
+    as [tbl], means: the ids are vocabulary ids of the tokenizer with table [tbl] and the decoded bytes are the
+    UTF-8 of the stripped text. *)
 Theorem check_sound_f : forall v out fb tbl, in_file v = Some fb -> load_table fb = Loaded tbl ->
-  config_ok (v_config (with_table v tbl)) = true -> check_C02f v out = true ->
+  config_ok (v_config (with_table v tbl)) = true -> out <> L [] -> check_C02f v out = true ->
   c_tbl (v_config (with_table v tbl)) = tbl /\
   exists ids vs, strip_file out = L [list_v n_v ids; L [list_v n_v (utf8s (strip_trailing_ws (v_str (v_nth 5 v))))]; vs] /\
                  Forall (fun id => id < vocab_size (v_config (with_table v tbl))) ids.
